@@ -33,7 +33,7 @@ def check(ctx):
                        "MissExact checked on the spec and each case replayed on the exported range computation. MC_Attach sessions end in "
                        "0x1212 -> resend -> 0x1212 and compare the 0x9212 bytes on the wire; P0x9212.Parse must read the same ranges.")
     ctx.cov["exhaustive"] = True
-    ctx.assumptions += ["received chunks pairwise disjoint (the property's domain); sizes below 2^31",
+    ctx.assumptions += ["received chunks pairwise disjoint (the property's domain); sizes below 2^31 byte for byte, 2..4 GiB in MiB units (the computation is scale-free, TLC integers are 32 bit)",
                         "0x1212 for a file name that was never announced is outside the property and not judged"]
 
 
